@@ -714,10 +714,16 @@ func classifySeq(c SeqCase) (bool, []string) {
 // Bind: "root" root map · "scope" pushed map over a root binding of the same name · "set" Set in
 // a Push(nil) scope · "field"/"field-name" field Any of a struct root addressed by tag "any" / by
 // name "Any" · "pfield" the same through a pointer root.
+//
+// Pre lists other paths over the same name that are resolved (and checked) first, on the same
+// stack: collision partners such as the same path with "first name" spelled "firstname".
+// Pad adds blanks: 1 around the whole path, 2 around dots and inside brackets, 3 both.
 type PathCase struct {
-	Val   VD     `json:"val"`
-	Bind  string `json:"bind"`
-	Steps []Step `json:"steps"`
+	Val   VD       `json:"val"`
+	Bind  string   `json:"bind"`
+	Steps []Step   `json:"steps"`
+	Pre   [][]Step `json:"pre,omitempty"`
+	Pad   int      `json:"pad,omitempty"`
 }
 
 var binds = []string{"root", "scope", "set", "field", "field-name", "pfield"}
@@ -747,11 +753,25 @@ func checkPath(c PathCase) error {
 	v := c.Val.Go()
 	exp, out, _ := walk(v, c.Steps)
 	s, name := c.stack(v)
-	path, ok, _ := spell(name, c.Steps)
+	path, ok, _ := spellPad(name, c.Steps, c.Pad)
 	if !ok {
 		return nil // not spellable as requested: skipped (the generators do not produce these)
 	}
-	return checkReaders("bind="+c.Bind, s, path, exp, out, 0)
+	for i, pre := range c.Pre {
+		pexp, pout, _ := walk(v, pre)
+		ppath, pok, _ := spell(name, pre)
+		if !pok {
+			continue
+		}
+		if err := checkReaders(fmt.Sprintf("bind=%s partner#%d (resolved before %q)", c.Bind, i, path), s, ppath, pexp, pout, 0); err != nil {
+			return err
+		}
+	}
+	tag := "bind=" + c.Bind
+	if len(c.Pre) > 0 {
+		tag += fmt.Sprintf(" (after %d partner paths, first %s)", len(c.Pre), describeSteps(c.Pre[0]))
+	}
+	return checkReaders(tag, s, path, exp, out, 0)
 }
 
 func classifyPath(c PathCase) (bool, []string) {
@@ -789,6 +809,37 @@ func classifyPath(c PathCase) (bool, []string) {
 	if !sok {
 		cls["unspellable"] = true
 	}
+	if c.Pad != 0 && len(c.Steps) > 0 {
+		cls[fmt.Sprintf("pad=%d", c.Pad)] = true
+	}
+	for _, st := range c.Steps {
+		if strings.Contains(strings.TrimSpace(st.K), " ") {
+			cls["key-with-inner-blank"] = true
+		}
+	}
+	if len(c.Pre) > 0 {
+		cls["partner-first"] = true
+		blankMain, blankPre := false, false
+		for _, st := range c.Steps {
+			blankMain = blankMain || strings.Contains(st.K, " ")
+		}
+		for _, st := range c.Pre[0] {
+			blankPre = blankPre || strings.Contains(st.K, " ")
+		}
+		switch {
+		case blankPre && !blankMain:
+			cls["partner:blank-then-tight"] = true
+		case !blankPre && blankMain:
+			cls["partner:tight-then-blank"] = true
+		default:
+			cls["partner:blank-then-blank"] = true
+		}
+		if _, pout, _ := walk(v, c.Pre[0]); (pout == reach) != (out == reach) {
+			cls["partner:one-present-one-absent"] = true
+		} else if out == reach {
+			cls["partner:both-present"] = true
+		}
+	}
 	if exotic {
 		cls["quoted-exotic-key"] = true
 	}
@@ -822,6 +873,13 @@ func replay(kind string, raw json.RawMessage) error {
 func TestProp(t *testing.T) {
 	rec := ev.New(prop)
 	defer run.Finish(t, rec)
+
+	// ---- family 2, twin keys: first of all and in every shard, while vuego's process-global
+	// path cache (256 entries) is still empty.
+	if tn, tok := enumTwins(rec); tok {
+		rec.Exhaustive(fmt.Sprintf("all paths of <= 3 steps naming a key with a blank/blank-free twin over the twin zoo, collision partner resolved first, both orders, plain and padded (%d cases, every shard)", tn))
+	}
+
 	run.Witnesses(rec, prop, replay)
 
 	known := kf.Load()
